@@ -59,7 +59,7 @@ func (s c15Scenario) String() string {
 		fs = append(fs, fmt.Sprintf("%s on connection %d before request %d", fNames[f.kind], f.conn, f.pos+1))
 	}
 	return fmt.Sprintf("%d connections x %d requests; faults: %s; %d temporary accept errors before connection %d; handler installed %s", s.K, s.perConn, strings.Join(fs, ", "), s.acceptErr, s.acceptPos,
-		[]string{"on a ServeMux in Server.Handler", "with diam.HandleFunc, Server.Handler nil", "as a plain function in Server.Handler"}[s.install])
+		[]string{"on a ServeMux in Server.Handler", "with diam.HandleFunc, Server.Handler nil", "as a plain function in Server.Handler", "as a type of its own that takes the error reports too and panics in its report method"}[s.install])
 }
 
 const panicMarker = 0x40000000
@@ -74,6 +74,20 @@ func c15AcceptErr(i int) error {
 	}
 	return &memnet.TempError{Msg: "accept: too many open files"}
 }
+
+// c15OwnReporter is an application's own handler type that also takes the error reports - and
+// whose report method panics (it looks into the message of a report that has none): a panic
+// raised by the handler, on the connection's goroutine like the others.
+type c15OwnReporter func(diam.Conn, *diam.Message)
+
+func (f c15OwnReporter) ServeDIAM(c diam.Conn, m *diam.Message) { f(c, m) }
+func (f c15OwnReporter) Error(er *diam.ErrorReport) {
+	if er.Message == nil {
+		panic("verif: the report handler looked into a message that is not there")
+	}
+	panic("verif: the report handler blew up")
+}
+func (f c15OwnReporter) ErrorReports() <-chan *diam.ErrorReport { return nil }
 
 func runC15(c *ev.Case, ctx *lib.Ctx, sc c15Scenario, lc *logCapture) {
 	sig := func(op string) ev.Sig {
@@ -121,6 +135,8 @@ func runC15(c *ev.Case, ctx *lib.Ctx, sc c15Scenario, lc *logCapture) {
 		}
 	case 2:
 		srv.Handler = diam.HandlerFunc(hf)
+	case 3:
+		srv.Handler = c15OwnReporter(hf)
 	}
 	ln := memnet.NewListener()
 	serveDone := make(chan error, 1)
@@ -314,7 +330,8 @@ func runC15(c *ev.Case, ctx *lib.Ctx, sc c15Scenario, lc *logCapture) {
 			more = false
 		}
 	}
-	if sc.install == 2 {
+	reporterPanics := sc.install == 3 && reportsOffered > 0
+	if sc.install >= 2 {
 		reportsOffered = 0
 	}
 	if want := min(reportsOffered, 1); reports != want {
@@ -328,6 +345,7 @@ func runC15(c *ev.Case, ctx *lib.Ctx, sc c15Scenario, lc *logCapture) {
 			wantPanic = true
 		}
 	}
+	wantPanic = wantPanic || reporterPanics
 	if wantPanic != strings.Contains(logs, "panic serving") {
 		c.Fail(sig("panic-log"), nil, nil, "handler panic scripted=%v but the log says: %q; %s", wantPanic, logs[:min(len(logs), 300)], desc)
 		return
@@ -454,7 +472,7 @@ func TestC15(t *testing.T) {
 	}
 	rec.Suite("placements", len(scs), func(c *ev.Case) {
 		sc := scs[c.I]
-		sc.install = []int{0, 1, 0, 2, 1}[(c.I/2+c.I/20)%5]
+		sc.install = []int{0, 1, 3, 2, 1, 0, 3}[(c.I/2+c.I/20)%7]
 		c.Class("handler-installed=%d", sc.install)
 		k := "none"
 		if len(sc.faults) > 0 {
@@ -494,7 +512,7 @@ func TestC15(t *testing.T) {
 		if r.IntN(2) == 0 {
 			sc.acceptErr, sc.acceptPos = 1+r.IntN(4), r.IntN(sc.K+1)
 		}
-		sc.install = []int{0, 1, 2}[r.IntN(3)]
+		sc.install = []int{0, 1, 2, 3}[r.IntN(4)]
 		c.Class("random/K=%d/faults=%d/accept-errors=%v/handler-installed=%d", sc.K, len(sc.faults), sc.acceptErr > 0, sc.install)
 		leak := runBubbleWD(t, rec, c, 60*time.Second, func() { runC15(c, ctx, sc, lc) })
 		if leak != "" && !c.Failed() {
